@@ -115,10 +115,10 @@ Proof.
 Qed.
 
 (* ---------- Element::add_to_file ---------- *)
-Lemma np_add_to_file w e f : PanicFree w -> e < w_next w -> f < N.of_nat (List.length (w_files w)) ->
-  runs (e_add_to_file T e f) w.
+Lemma gq_add_to_file w e f : PanicFree w -> e < w_next w -> f < N.of_nat (List.length (w_files w)) ->
+  runsQ (e_add_to_file T e f) w (good w (fun _ _ => True)).
 Proof.
-  intros [C U _] L Lf. eapply (ENV good_runs _ w (fun _ _ => True)). unfold e_add_to_file.
+  intros [C U _] L Lf. unfold e_add_to_file.
   destruct (ENV get_node_ok w e C L) as (n & EG & EN & NO).
   eapply (ENV good_rd); [exact C|exists (OK n); split; [exact EG|]; intros a [= <-]; exact (eq_refl n)|]. intros a <-.
   eapply (ENV good_rd); [exact C|apply (parent_splittable_ok w n C NO)|]. intros ps _.
@@ -144,6 +144,10 @@ Proof.
     eapply (ENV good_weaken); [apply (good_add_to_file_restricted f hp w1 pi (fuel_of w1) C1 U1 DP)|intros; exact I].
     pose proof (depth_lt_fuel T tab_el tab_en w1 pi hp C1 DP). lia.
 Qed.
+
+Lemma np_add_to_file w e f : PanicFree w -> e < w_next w -> f < N.of_nat (List.length (w_files w)) ->
+  runs (e_add_to_file T e f) w.
+Proof. intros. eapply (ENV good_runs). apply gq_add_to_file; assumption. Qed.
 
 (* ---------- AutosarModel::create_file ---------- *)
 Lemma np_create_file w m name version : PanicFree w -> m < N.of_nat (List.length (w_models w)) ->
